@@ -104,8 +104,42 @@ DoGroupMatch ==
     /\ phase' = IF phase = "placed" THEN "matched1" ELSE "matched2"
     /\ UNCHANGED <<o0, rb, env>>
 
-Init == InitPlace \/ InitGroup
-Next == (Mode = "place" /\ (DoPlace \/ DoMatch)) \/ DoGroupMatch
+\* ---- iso mode (C13): strategy A's orders alone versus together with strategy B's
+IsoOrder(lab, sn, sd, p, z, q, i) ==
+    [GroupOrder(i, sd, p, z, q) EXCEPT !.status = "EXECUTABLE"] @@ [strat |-> sn, mid |-> "M", inbl |-> TRUE, live |-> TRUE]
+InitIso ==
+    /\ Mode \in {"iso", "noiso"}
+    /\ phase = "placed"
+    /\ o0 = <<>>
+    /\ \E na \in 1..MaxOrders : \E nb \in 1..MaxOrders :
+         \E fa \in [1..na -> {<<sd, p, q>> : sd \in {"BACK", "LAY"}, p \in Prices, q \in {0, 100}}] :
+         \E fb \in [1..nb -> {<<sd, p, q>> : sd \in {"BACK", "LAY"}, p \in Prices, q \in {0, 100}}] :
+            cur = [k \in ({<<"A", i>> : i \in 1..na} \cup {<<"B", i>> : i \in 1..nb}) |->
+                      IF k[1] = "A" THEN IsoOrder(k, "A", fa[k[2]][1], fa[k[2]][2], 200, fa[k[2]][3], 2 * k[2])
+                      ELSE IsoOrder(k, "B", fb[k[2]][1], fb[k[2]][2], 200, fb[k[2]][3], 2 * k[2] + 1)]
+    /\ rb = [status |-> "ACTIVE", atb |-> <<>>, atl |-> <<>>, sp |-> -1]
+    /\ env = <<>>
+    /\ hist = <<>>
+
+DoIso ==
+    /\ Mode \in {"iso", "noiso"} /\ phase = "placed"
+    /\ \E d \in Traded :
+         LET bk == Mb @@ [r |-> ("1" :> rb)]
+             onlyA == [k \in {x \in DOMAIN cur : x[1] = "A"} |-> cur[k]]
+             duo == MwAll(cur, "M", Mode = "iso", ("1" :> d), bk, 7, ("c1" :> 1000))
+             solo == MwAll(onlyA, "M", Mode = "iso", ("1" :> d), bk, 7, ("c1" :> 1000))
+         IN hist' = <<[duo |-> duo, solo |-> solo]>>
+    /\ phase' = "matched1"
+    /\ UNCHANGED <<o0, cur, rb, env>>
+
+Init == InitPlace \/ InitGroup \/ InitIso
+Next == (Mode = "place" /\ (DoPlace \/ DoMatch)) \/ DoGroupMatch \/ DoIso
+
+\* C13: with isolation, A's fills do not depend on B's orders
+Inv_C13_Isolation ==
+    (Mode = "iso" /\ hist # <<>>) => \A k \in DOMAIN hist[1].solo : hist[1].duo[k] = hist[1].solo[k]
+\* without isolation they do (witness that the check is not vacuous)
+Reach_NoIsoDiffers == ~(Mode = "noiso" /\ hist # <<>> /\ \E k \in DOMAIN hist[1].solo : hist[1].duo[k] # hist[1].solo[k])
 Spec == Init /\ [][Next]_vars
 
 -----------------------------------------------------------------------------
